@@ -605,6 +605,9 @@ func (x *Exec) storeBlockOf(al *ssa.Alloc, li *loopInfo) *ssa.BasicBlock {
 
 func (x *Exec) loopSpec(fn *ssa.Function, ord int) *LoopSpec {
 	c := x.e.contracts[x.e.shortName(fn)]
+	if x.c != nil && funcOf(x.c.Name) == x.e.shortName(fn) && len(x.c.Loops) > 0 {
+		c = x.c // a variant contract (f#v) of the function under verification brings its own loop specifications
+	}
 	if c == nil {
 		return nil
 	}
